@@ -24,6 +24,16 @@
 void __gcov_dump(void);
 #endif
 
+#ifndef VH_ASAN
+/* builds without a sanitizer runtime (coverage build): the allocation ledger is not available */
+size_t __sanitizer_get_current_allocated_bytes(void);
+size_t
+__sanitizer_get_current_allocated_bytes(void)
+{
+    return 0;
+}
+#endif
+
 #ifdef VH_ASAN
 void __asan_poison_memory_region(void const volatile *addr, size_t size);
 void __asan_unpoison_memory_region(void const volatile *addr, size_t size);
@@ -480,9 +490,10 @@ __asan_on_error(void)
 static int
 owns(uint64_t seq)
 {
-    if (vh_slice > 1 && (seq % (uint64_t)vh_slice) != 0)
+    /* slices are picked by hash so that they do not line up with how a harness encodes options in the index */
+    if (vh_slice > 1 && (vh_mix(seq * 0x9e3779b97f4a7c15ull) % (uint64_t)vh_slice) != 0)
         return 0;
-    return (int)((seq / (uint64_t)vh_slice) % (uint64_t)vh_nshards) == vh_shard;
+    return (int)(seq % (uint64_t)vh_nshards) == vh_shard;
 }
 
 void
